@@ -293,6 +293,10 @@ def zero_rule(ctx, rule, key, site, combo, body, w, d, READD):
 def run(ctx, fb, cfg):
     lib = fb.lib
     R = "C19."
+    # is_number / get_number / is_var ... mean what the propagator tables assume
+    import termkinds
+
+    termkinds.check_term_kinds(ctx, lib, R + "K5.term-kinds")
     import fdrules
 
     fdrules.check_operand_plumbing(ctx, lib, R + "K3.operand-plumbing", only=("plusz", "timesz"))
